@@ -1143,6 +1143,12 @@ class Engine:
                 if '__info' not in o.fields:
                     o.fields['__info'] = Cell(self.ex.fresh("anchor_lang::prelude::AccountInfo<'_>", o.name + '.info'), name=o.name + '.info')
                 return o.fields['__info'].val
+        mm = re.match(r'^<(anchor_lang::prelude::Pubkey|\w+) as Ord>::cmp$', c)
+        if mm and len(args) == 2:
+            a_, b_ = self.deref_val(args[0]), self.deref_val(args[1])
+            if isinstance(a_, IntV) and isinstance(b_, IntV):
+                # keys are abstract scalars with a total order (byte-lexicographic order on chain; only its totality/antisymmetry is used)
+                return EnumV('Ordering', z3.If(a_.e < b_.e, -1, z3.If(a_.e == b_.e, 0, 1)), {})
         # ---- Anchor / Pubkey / PDA models (keys are uninterpreted scalars; sha256 derivation is an uninterpreted function)
         if re.match(r'^<anchor_lang::prelude::(AccountLoader|Account|InterfaceAccount|Signer|Program|Interface|SystemAccount|UncheckedAccount|Sysvar)<.*> as AsRef<anchor_lang::prelude::AccountInfo<.*>>>::as_ref$', c):
             o = self.deref_val(args[0])
